@@ -33,10 +33,12 @@ ASSUMPTIONS = [
 ]
 SHARD_TIMEOUT = {'quick': 900, 'thorough': 3600}
 
-REG = {'ADT^A01^ADT_A01': 'OkHandler', 'ADT^A01': 'OkHandler', 'ORU^R01^ORU_R01': 'OtherHandler'}
+REG = {'ADT^A01^ADT_A01': 'OkHandler', 'ADT^A01': 'OkHandler', 'ORU^R01^ORU_R01': 'OtherHandler',
+       'QBP^Q11^QBP_Q11K': 'Raising:KeyError', 'QBP^Q11^QBP_Q11V': 'Raising:ValueError', 'QBP^Q11^QBP_Q11I': 'Raising:IndexError'}
 
 
 REG_ARGS = {'ADT^A01^ADT_A01': ['x', 1], 'ADT^A01': [], 'ORU^R01^ORU_R01': [], 'ERR': ['e1', 2]}
+SEND = ['SND', 'SND', 'SND', 'S\u2028ND', 'S\u2029ND', 'S\x85ND', 'S\x0cND', 'S\x1dN\x1eD', 'S\x1fND']   # MSH-3 values
 
 
 def plan(tier, seed):
@@ -53,7 +55,9 @@ def plan(tier, seed):
 def handlers_for(hist, delay=None):
     Ok, Other, Err = mllpdrv.make_handlers(hist, delay)
     # (handlers may be registered with extra arguments: the error handler too)
-    return {'ADT^A01^ADT_A01': (Ok, 'x', 1), 'ADT^A01': (Ok,), 'ORU^R01^ORU_R01': (Other,), 'ERR': (Err, 'e1', 2)}
+    R = mllpdrv.make_handlers.Raising
+    return {'ADT^A01^ADT_A01': (Ok, 'x', 1), 'ADT^A01': (Ok,), 'ORU^R01^ORU_R01': (Other,), 'ERR': (Err, 'e1', 2),
+            'QBP^Q11^QBP_Q11K': (R, 'KeyError'), 'QBP^Q11^QBP_Q11V': (R, 'ValueError'), 'QBP^Q11^QBP_Q11I': (R, 'IndexError')}
 
 
 def one_connection(drv, hist, chunks, payload, kind, rec, case, sig, nontrivial=True, client_wait=8.0, reg=None):
@@ -116,13 +120,15 @@ def random_text(rng, kind):
     if rng.random() < 0.4:
         tail = rng.choice(['|', '|1', '||', '|||AL|NE', '||||||UNICODE UTF-8'])
     if kind == 'registered':
-        m9 = rng.choice(['ADT^A01^ADT_A01', 'ORU^R01^ORU_R01', 'ADT^A01'])
+        m9 = rng.choice(['ADT^A01^ADT_A01', 'ORU^R01^ORU_R01', 'ADT^A01', 'ADT^A01^ADT_A01', 'QBP^Q11^QBP_Q11K',
+                         'QBP^Q11^QBP_Q11V', 'QBP^Q11^QBP_Q11I'])
     elif kind == 'unregistered':
         m9 = rng.choice(['ADT^A02^ADT_A02', 'QBP^Q11^QBP_Q11', 'ZZZ^Z01', '', 'ADT'])
     else:
         return rng.choice(['HELLO WORLD', 'PID|1||x', 'MS|^~\\&|x', 'msh|^~\\&|A', 'MSH', 'X' * 300,
                            'not hl7 at all\rsecond line'])
-    lines = ['MSH|%s|SND|FAC|RCV|FAC|20200101||%s|%s|P|%s%s' % (msh2, m9, cid, v, tail)]
+    # characters that str.splitlines() takes for line ends are ordinary data in ER7 (the segment terminator is CR)
+    lines = ['MSH|%s|%s|FAC|RCV|FAC|20200101||%s|%s|P|%s%s' % (msh2, rng.choice(SEND), m9, cid, v, tail)]
     for i in range(rng.randint(0, 6)):
         name = rng.choice(['PID', 'PV1', 'OBX', 'NK1', 'ZZ1'])
         val = rng.choice(['x', 'Müller^Jörg', '日本語', 'a b c', 'A^B&C~D', 'é', '\U0001F600',
